@@ -72,6 +72,16 @@ CHECKS["C11"] = (
     "DESIGN.md §5 C11",
 )
 
+CHECKS["C16"] = (
+    "invariant + differential monitor on the chosen FunctionId: order independence under all permutations, exact-match and non-domination against an independent rank table",
+    "For ~24k (quick) / 120k (thorough) generated candidate sets of 2-5 overloads x argument tuples (plus 631 directed cases) the call is "
+    "type-checked under permutations of the declaration order (all of them in thorough) and the selected candidate is read from the IR "
+    "(second observation: assert_type): the outcome must not depend on order, a unique exact match must win, and the winner must not be "
+    "dominated under a rank table written from the documented priority order.",
+    "Viability of conversions is learned from casting.rs (documented in the check); rank trade-offs the documentation does not order are treated as incomparable.",
+    "DESIGN.md §5 C16",
+)
+
 NOT_YET = {}
 
 def main():
